@@ -201,6 +201,7 @@ def run_files(ctx, out):
     d = ctx.work.fresh("c19files")
     lays = gen_layouts(rng, quick)
     files = []
+    volatile = set()      # files whose extent list may change under our feet (writeback): direct oracle only
     for k, (size, segs) in enumerate(lays):
         p = os.path.join(d, "f%d" % k)
         fsutil.make_file(p, size, segs, tag=k + 1)
@@ -225,6 +226,7 @@ def run_files(ctx, out):
             os.close(fd)      # no fsync: the probes below run while the data is still dirty
         lays.append((size, segs))
         files.append(p)
+        volatile.add(p)
         out.count("preallocated_unsynced_files")
     # implementation
     r1 = subprocess.run([ctx.bins["probe"], "extents"] + files, capture_output=True, text=True, timeout=600)
@@ -263,6 +265,8 @@ def run_files(ctx, out):
             if me[k] is not None:
                 if me[k][0] != 1:
                     contract_bad += 1      # the kernel's list is outside the contract; no model claim
+                elif p in volatile:
+                    pass                   # the harness's and the probe's FIEMAP calls may straddle a writeback
                 elif me[k][1:] != [0] + [x for t in impl for x in t]:
                     out.corr("R0-map_extents", dict(size=size, segs=segs, raw=raw), me[k], el)
             rng_list = [(s, e) for s, e, _ in impl]
@@ -298,6 +302,8 @@ def run_files(ctx, out):
             if ms[k] is not None:
                 if ms[k][0] != 1:
                     contract_bad += 1
+                elif p in volatile:
+                    pass
                 elif ms[k][1:] != [0] + nums:
                     out.corr("R0-segments", dict(size=size, segs=segs, kernel_layout=seeks[k][1]), ms[k], sl)
             ok, bad = fsutil.zero_outside(p, impl, size)
